@@ -97,6 +97,9 @@ where
       if self.task_handler.is_closed() {
         let delay = (self.duration_selector)(&value);
         if self.edge.leading {
+          // delivered on the leading edge: it must not come a second time as
+          // this window's trailing value
+          self.trailing_value.rc_deref_mut().take();
           self.observer.next(value)
         }
         let task = OnceTask::new(
